@@ -214,6 +214,8 @@ impl Emitter {
         let mut stack = vec![Emitter::Node(node)];
 
         while let Some(inst) = stack.pop() {
+            #[cfg(feature = "verif")]
+            crate::verif::tick(crate::verif::Site::EmitNode);
             match inst {
                 Emitter::NodeLoopFinish {
                     loop_instruction_index,
